@@ -531,6 +531,18 @@ def _fix_multiline_opening_tag_with_closing(text: str) -> str:
 
         if not is_tag_start:
             match = _multiline_closing_pattern.search(line)
+            if match and any(
+                delim in line[: match.start()]
+                for delim in (
+                    SINGLE_JINJA_TAG.open_delim,
+                    SINGLE_JINJA_COMMENT.open_delim,
+                    SINGLE_JINJA_VAR.open_delim,
+                    SINGLE_HTML_COMMENT.open_delim,
+                )
+            ):
+                # The tag that closes here was opened on this same line (a paired tag in the
+                # middle of prose): it is not the tail of a multi-line opening tag.
+                match = None
             if match:
                 # Find which named group matched and split at the closing tag
                 for group_name in ["closing_tag", "closing_comment", "closing_var", "closing_html"]:
